@@ -62,7 +62,7 @@ package keys_and_cert
 //@   ensures fresh(b)
 //@   ensures (err == nil) == (keys_and_cert != nil)
 //@   ensures @C01 @C02 err == nil ==> len(b) == 384 + len(certificate.CertWire(&keys_and_cert.KeyCertificate.Certificate))
-//@   ensures @C01 @C02 err == nil ==> seqeq(b[:384], KacBlock(keys_and_cert))
+//@   ensures @C01 @C02 @C10 err == nil ==> seqeq(b[:384], KacBlock(keys_and_cert))
 //@   ensures @C01 @C02 err == nil ==> seqeq(b[384:], certificate.CertWire(&keys_and_cert.KeyCertificate.Certificate))
 //@   ensures @C01 @C02 err == nil ==> seqeq(b, KacWire(keys_and_cert))
 //@   modifies nothing
